@@ -74,6 +74,10 @@ def final_marker(mode, n, last):
         return SEG(last)
     if mode == 'estimate':
         return SEG(min(last, n + 2)) if n + 2 <= last else SEG(last)
+    if mode == 'other-type':
+        # a FinalBlockId that is no segment component (a sequence-number / generic component whose number happens to be this
+        # segment's): it names no segment of the object, the fetch goes on until the segment that names itself
+        return rc.comp(0x3a, rc.enc_nni(n)) if n % 2 == 0 else rc.comp(8, bytes([n]))
     return None
 
 
@@ -213,7 +217,7 @@ def execute(sc):
 def gen_script(rng):
     n = rng.choice([0, 1, 1, 2, 3, 4, 5, 8])
     retry = rng.choice([1, 2, 3])
-    sc = {'n': n, 'retry': retry, 'version': rng.random() < 0.5, 'marker': rng.choice(['every', 'last', 'estimate']), 'fresh': rng.choice([10, 10, 0, None]),
+    sc = {'n': n, 'retry': retry, 'version': rng.random() < 0.5, 'marker': rng.choice(['every', 'last', 'estimate', 'other-type']), 'fresh': rng.choice([10, 10, 0, None]),
           'disc_answer': rng.randrange(n) if n else 0, 'loss': {}, 'fault': None,
           'name_form': rng.choice(['list', 'list', 'tuple', 'uri', 'encoded', 'generator', 'iterator', 'list-str']),
           'validator_via': rng.choice(['argument', 'argument', 'app-default']), 'ctype': rng.choice(['encoded', 'encoded', 'omitted']),
@@ -526,7 +530,7 @@ def run(ctx):
     for sc in templates + [gen_concurrent(rng) for _ in range(ctx.n(250, 80000))]:
         obs, S = execute_concurrent(sc)
         judge_concurrent(ctx, sc, obs, S)
-    for k in ('marker-estimate', 'freshness-None', 'freshness-0', 'outcome-done', 'outcome-timeout', 'outcome-nack', 'outcome-valfail', 'concurrent-fetch', 'concurrent-outcome-done', 'concurrent-outcome-timeout',
+    for k in ('marker-estimate', 'marker-other-type', 'freshness-None', 'freshness-0', 'outcome-done', 'outcome-timeout', 'outcome-nack', 'outcome-valfail', 'concurrent-fetch', 'concurrent-outcome-done', 'concurrent-outcome-timeout',
               'concurrent-data-shared-between-fetchers', 'one-shot-name-with-lost-discovery', 'validator-via-app-default', 'content-type-omitted', 'validator-form-lambda', 'validator-form-object', 'validator-form-partial'):
         ctx.need_event(k)
     ctx.assumptions = ['an object without any final-block marker is outside the statement', 'the legacy front-end is the one segment_fetcher uses']
